@@ -547,6 +547,14 @@ class Evaluator:
             if isinstance(v, ChanV):
                 return TV(z3.BoolVal(v.id is None), BOOL)
             raise SpecError("isnil of %r" % (v,))
+        if name == "ghost":
+            gn = args[0][1]
+            if gn not in cur.ghost:
+                raise SpecError("no ghost variable %r in this verification" % gn)
+            g = cur.ghost[gn]
+            if is_z3(g) and z3.is_bool(g):
+                return TV(g, BOOL)
+            return TV(g, INT)
         if name == "ntrace":
             base = len(old.trace) if old is not None else 0
             n = len(cur.trace) - base
